@@ -63,6 +63,14 @@ PROPS = {
     "C15": P("random histories up to length 30 over {AddChannel(f,minDR,maxDR), Disable(i), Enable(i)} with valid and wild arguments (negative / huge indices, non-100 Hz frequencies, inverted DR ranges) on all 56 configurations; "
              "after each history: full state observation, channel / frequency / frequency+DR lookups, CFList per protocol version, TX power, plan+apply; ISM2400 histories add spec-valid 2.4 GHz channels",
              trusted=["the hook (state observation)"]),
+    "C19": P("fragment sizes 1..64 x fragment counts 1..300 (power-of-two counts 1..256 forced: they take the other modulus branch) x redundancy 0..100, random data; zero and single-bit blocks (linearity probes); "
+             "invalid sizes {0, negative, non-dividing} x redundancy {0,1,5,-1}; every Go output is checked against the TS004 matrix line computed by the specification side",
+             trusted=["termination of the `for r >= m` loop is modelled with fuel (100000 draws per coefficient); the Go loop itself is only observed to terminate"]),
+    "C20": P("GPS: every leap second of the regenerated table with offsets -2 s .. +3 s at sub-second resolution (both directions, incl. durations inside the inserted second), random instants 1980..2100 at ns resolution; "
+             "airtime: payload-symbol count exhaustively over payload 0..255 x SF 5..12 x CR 1..4 x header x LDRO (quick) and the full 10.6 M-cell product with bandwidth {125,250,500,812,1625} x preamble in thorough; "
+             "EIRP: all 256 index bytes, +-3 ulp around every table entry, random float32 bit patterns, infinities, NaN, denormals",
+             trusted=["gps hook VerifLeapTable", "time.Time arithmetic modelled as integer nanoseconds (no saturation inside 1678..2262)", "IEEE-754 binary64 division modelled exactly on integers (LW.fdivCeil), validated against Go on every payload-symbol op"],
+             exhaustive_parts=["payload-symbol count: payload 0..255 x SF 5..12 x CR 1..4 x header x LDRO", "all 256 EIRP index bytes", "thorough: full airtime product"]),
     "C08": P("byte strings of every length 0..256 for each of the 8 MTypes (uniform), uniform strings at the lengths the decoders single out, structure-aware mutations (bit flip, truncate, extend, splice, overwrite, delete) of valid frames of all kinds, "
              "and the full FOptsLen x FPort x payload-length grid; each accepted string is re-encoded by the implementation; non-trivial = accepted",
              exhaustive_parts=["all lengths 0..256 x 8 MTypes (one uniform sample each)", "FOptsLen 0..15 x {no port, port 0, port 1, port 255} x payload 0..2 x 4 data MTypes"]),
@@ -124,6 +132,17 @@ MANIFEST_TEXT = {
              "partitions, unaltered standard channels, lookups return matching channels, CFList content and MAC-layer encodability.",
         note="Trusted: hook, model. Known finding (recorded, not repaired): ISM2400 frequencies are not encodable in CFList / 24-bit frequency MAC commands. Two genuine defects repaired (negative index panics).",
         technique="Lean 4 proof (invariants over all op histories) + differential correspondence"),
+    "C19": dict(
+        text="Lean theorems for an ARBITRARY parity-line function, any block, size and redundancy: C19_structure (systematic, count, each parity fragment = XOR of exactly the selected data fragments), C19_systematic, "
+             "C19_linear (encode(a xor b) = encode a xor encode b), C19_matrix (the code's line = TS004 pseudo-code in bit-operation form, both is_power2 branches), C19_errors, C19_total. "
+             "Every Go output is re-derived from the specification side.",
+        note="Trusted: Lean kernel; TS004 transcription (LW/Spec/Frag.lean); fuel for the PRBS draw loop. The recovery clause (decoder from any full-rank subset) follows from linearity; its certificate-checking theorem is not yet proved. One genuine defect repaired (size <= 0).",
+        technique="Lean 4 proof (structural induction, linearity) + differential correspondence"),
+    "C20": dict(
+        text="Lean theorems: C20_gps_roundtrip / _strict_mono / _inverse for EVERY instant or duration and ANY sorted leap table, C20_generated_table_ok + C20_gps_offset (regenerated table = published IERS list, offset = published count for every instant), "
+             "C20_ceil_exact (exact binary64 model, kernel-evaluated over the whole domain), C20_airtime_formula / _total / _mono, C20_eirp_table + C20_eirp (largest entry not exceeding x, for every float32). Go results are also judged against the spec formulas.",
+        note="Trusted: Lean kernel; hooks + dump; the IERS date list and Semtech formula as transcribed; integer model of time.Time; the exact-float model. One genuine defect repaired (leap boundary one second early). sensitivity.go carries no clause and is not modelled.",
+        technique="Lean 4 proof (induction over the leap table, kernel evaluation of an exact float model, monotonicity) + differential correspondence"),
     "C08": dict(
         text="Lean theorems C08_canonical (for ALL byte strings of all lengths: accepted with RFU bits zero => re-encodes to exactly the input) and C08_stable. Tied to the Go decoder/encoder by decode+re-encode runs on uniform and mutated inputs.",
         note="Trusted: Lean kernel; the model of the frame codec. One genuine defect found and repaired (FOpts + FPort 0 + empty FRMPayload accepted but not encodable).",
